@@ -73,7 +73,19 @@ Definition same_direction (n d : vec3) : bool :=
 
 Definition cm : Q := 1 # 100.
 
+(* rectangular BUILDING-SHADE: X, Y, Z is its lower-left corner seen from outside, WIDTH runs along
+   its local x axis, HEIGHT along its local y axis; AZIMUTH (clockwise from north) and TILT give the
+   normal.  In the model's convention the azimuth is 180 - (AZIMUTH + deviation), counter-clockwise
+   from south, and the local frame is Rz(azimuth) Rx(tilt) *)
+Definition south_ccw (a : cs) : cs := (- fst a, snd a).       (* 180 degrees minus a clockwise angle *)
+Definition rect_shade_corners (dev az tilt : cs) (origin : vec3) (w h : Q) : list vec3 :=
+  let g := south_ccw (compose az dev) in
+  let o := rotz (cw dev) origin in
+  let pt := fun (x y : Q) => vadd o (rotz g (mkV x (y * fst tilt) (y * snd tilt))) in
+  [pt 0 0; pt w 0; pt w h; pt 0 h].
+
 Inductive c03case :=
+| RectShade (dev az tilt : cs) (origin : vec3) (w h : Q) (impl : list vec3)
 | EdgeWall (dev : cs) (s : src_space) (n : nat) (off : vec3) (impl : list vec3) (impl_normal : vec3)
 | Slab (dev : cs) (s : src_space) (z : Q) (off : vec3) (impl : list vec3)
 | Points (dev : cs) (src impl : list vec3)        (* shade given by vertices: building coordinates -> global *)
@@ -98,6 +110,9 @@ Definition trig_ok (r : cs) : bool := qleb (unit_err r) (1 # 1000000).
 
 Definition agree_C03 (c : c03case) : N :=
   match c with
+  | RectShade dev az tilt origin w h impl =>
+      if negb (trig_ok dev && trig_ok az && trig_ok tilt) then 9
+      else if all_close cm (rect_shade_corners dev az tilt origin w h) impl then 0 else 10
   | EdgeWall dev s n off impl nrm =>
       if negb (trig_ok dev && trig_ok (ss_az s)) then 9
       else if negb (all_close cm (edge_wall_corners dev s n off) impl) then 1
